@@ -412,13 +412,36 @@ func runCase(r *h.Run, c caseT) {
 				}
 			}()
 		}
-		for k := 0; k < c.Closers && k < len(sc); k++ {
-			wg.Add(1)
-			go func(cn *nbio.Conn, d int) {
-				defer wg.Done()
-				time.Sleep(time.Duration(d) * time.Microsecond)
-				_ = cn.Close()
-			}(sc[k], rng.Intn(2000))
+		closers := c.Closers
+		massClose := (c.Seed>>12)%4 == 0 && c.Net != "udp"
+		var massGo chan struct{}
+		if massClose {
+			// every connection is closed at the same instant, each by two goroutines, while Stop begins:
+			// the close notifications all go through the engine's one asynchronous queue
+			closers = len(sc)
+			massGo = make(chan struct{})
+			r.Count("mass_close_histories", 1)
+		}
+		for k := 0; k < closers && k < len(sc); k++ {
+			d := rng.Intn(2000)
+			for rep := 0; rep < 2; rep++ {
+				if rep == 1 && !massClose {
+					break
+				}
+				wg.Add(1)
+				go func(cn *nbio.Conn, d int) {
+					defer wg.Done()
+					if massGo != nil {
+						<-massGo
+					} else {
+						time.Sleep(time.Duration(d) * time.Microsecond)
+					}
+					_ = cn.Close()
+				}(sc[k], d)
+			}
+		}
+		if massGo != nil {
+			close(massGo)
 		}
 		time.Sleep(time.Duration(rng.Intn(3000)) * time.Microsecond)
 		stopFn = func() {
